@@ -88,6 +88,13 @@ static void do_clock(struct paula_state *paula, int cycles)
 	frac &= SMIX_MASK; \
 } while (0)
 
+/* The input is sampled several times per output sample, so these reads can run
+ * past the span end the mixer computed from whole output steps (far past it at
+ * low output rates); clamp them to the first sample after the end (guard bytes
+ * or loop epilogue). */
+#define PAULA_INPUT() \
+	sptr[pos < (unsigned int)vi->end ? pos : (unsigned int)vi->end]
+
 #define PAULA_SIMULATION(x) do { \
 	int num_in = vi->paula->remainder / MINIMUM_INTERVAL; \
 	int ministep = step / num_in; \
@@ -95,11 +102,11 @@ static void do_clock(struct paula_state *paula, int cycles)
 	\
 	/* input is always sampled at a higher rate than output */ \
 	for (i = 0; i < num_in - 1; i++) { \
-		input_sample(vi->paula, sptr[pos]); \
+		input_sample(vi->paula, PAULA_INPUT()); \
 		do_clock(vi->paula, MINIMUM_INTERVAL); \
 		UPDATE_POS(ministep); \
 	} \
-	input_sample(vi->paula, sptr[pos]); \
+	input_sample(vi->paula, PAULA_INPUT()); \
 	vi->paula->remainder -= num_in * MINIMUM_INTERVAL; \
 	\
 	do_clock(vi->paula, (int)vi->paula->remainder); \
